@@ -110,7 +110,7 @@ def finish(prop, tier, seed, units, results, wall, verbose=False, partial=False)
         exit_code = 3
     # units that produced no record at all are a vacuity error
     for r in results:
-        if not r['records'] and not r['error'] and r['paths'] == 0:
+        if not r['records'] and not r['error'] and r['paths'] == 0 and not r.get('skipped'):
             lines.append('CHECKER-ERROR property=%s unit=%s case=%s mode=%s explored no feasible path (vacuous precondition?)'
                          % (prop, r['unit'], r['case'], r['mode']))
             exit_code = 3
